@@ -290,6 +290,45 @@ func c16r2(c *core.Ctx) {
 		})
 		c.Check(ok, "GetByte-first-byte@"+fname(g), g.Pos(), "GetByte is the first byte of the tag's concatenated value (0 if absent)", "GetByte does not read the first byte of the tag's value")
 	}
+	// GetBytes / GetString hand out the concatenated value of the tag, whole: conversions between []byte and string and the
+	// accessors of the buffer are the only steps between GetBuffer(tag) and the result
+	for _, name := range []string{"GetBytes", "GetString"} {
+		g := p.Func("util", "(*tlv8Container)."+name)
+		if g == nil || len(g.Params) < 2 {
+			continue
+		}
+		var whole func(v ssa.Value, d int) bool
+		whole = func(v ssa.Value, d int) bool {
+			if d == 0 {
+				return false
+			}
+			switch x := v.(type) {
+			case *ssa.Convert:
+				return whole(x.X, d-1)
+			case *ssa.ChangeType:
+				return whole(x.X, d-1)
+			case *ssa.Call:
+				if core.IsCall(x, "(*bytes.Buffer).Bytes") || core.IsCall(x, "(*bytes.Buffer).String") {
+					return whole(x.Call.Args[0], d-1)
+				}
+				if h := core.Callee(x); h != nil && core.TypeIs(recvType(h), tTLVCont) && (cn(h) == "GetBuffer" || cn(h) == "GetBytes" || cn(h) == "GetString") && h != g {
+					a := core.Args(x)
+					return len(a) == 1 && valIs(a[0], g.Params[1]) && valIs(core.Receiver(x), g.Params[0])
+				}
+			}
+			return false
+		}
+		good, n := true, 0
+		core.Instrs(g, func(i ssa.Instruction) {
+			if r, ok := i.(*ssa.Return); ok && len(res(r)) == 1 {
+				n++
+				if !whole(res(r)[0], 6) {
+					good = false
+				}
+			}
+		})
+		c.Check(good && n > 0, "getter-whole-value:"+name, g.Pos(), name+" returns the concatenated value of its tag, whole", name+" does not return the whole concatenated value of the tag it is asked for (trimmed, sliced, another tag): parsing a serialised container does not yield the value that was set")
+	}
 }
 
 func c16r3(c *core.Ctx) {
